@@ -10,9 +10,11 @@ from gen import serial as G
 
 ID = "C15"
 PROPS = ["IsoVerif/Props/C15.lean", "IsoVerif/Props/C15Objects.lean", "IsoVerif/Props/C15Stream.lean",
-         "IsoVerif/Props/C15Domain.lean"]
-TARGETS = ["IsoVerif.Props.C15", "IsoVerif.Props.C15Objects", "IsoVerif.Props.C15Stream", "IsoVerif.Props.C15Domain"]
-GEN_DEPS = ["Constants", "Enums"]
+         "IsoVerif/Props/C15Domain.lean", "IsoVerif/Props/C15Reuse.lean"]
+TARGETS = ["IsoVerif.Props.C15", "IsoVerif.Props.C15Objects", "IsoVerif.Props.C15Stream", "IsoVerif.Props.C15Domain",
+           "IsoVerif.Props.C15Reuse"]
+# the reuse clause composes the models of C08 / C02 / C12 (Model/Reuse.lean), hence their generated tables
+GEN_DEPS = ["Constants", "Enums", "EventClasses", "Strategies", "Prims", "Resolver", "CounterTables", "Weights"]
 LEVEL = "proof"
 RULE = ("byte-level: the real writers (serialization.py primitives, MatchEvent/IsoformMatch/ReadAssignment/"
         "BasicReadAssignment/GeneInfo.serialize, TmpFileAssignmentPrinter, multimapper/info files) must produce exactly "
@@ -21,7 +23,12 @@ RULE = ("byte-level: the real writers (serialization.py primitives, MatchEvent/I
         "text, out-of-domain values; every real reader (full, abridged, stream loaders) is then run on the real bytes, on "
         "the real bytes + random suffix, on truncations and on single-byte corruptions and must agree with the model "
         "reader on value and number of unread bytes (or both raise); the files kept by a real pipeline run are parsed by "
-        "the model loaders and re-encoded to the identical bytes. A case is non-trivial when the model returns a "
+        "the model loaders and re-encoded to the identical bytes. Reuse clause (props/C15reuse.py): generated experiments "
+        "(records of a real run with read ids / flags / types / matches / penalties re-drawn; reads with several records "
+        "on one and on several chromosomes) go through the REAL command line in-process - saving run in both memory modes "
+        "(only collect_reads_in_parallel replaced by a stub that feeds the real printer) and the real --read_assignments "
+        "restart; the saved files must equal the model's bytes, and the loaded records, count and TPM tables of the saving "
+        "run and of the restart must equal the model's (processSaved on the real files). A case is non-trivial when the model returns a "
         "non-error value and model == implementation; distinct by (op, input)")
 TRUSTED = ["harness/props/C15.py adapters between the canonical JSON form and the real objects "
            "(ReadAssignment/IsoformMatch/... built with __new__ + attributes, exactly the attributes serialize reads)",
@@ -29,6 +36,8 @@ TRUSTED = ["harness/props/C15.py adapters between the canonical JSON form and th
            "isolation; the harness re-states those 6 lines with the real primitives (the real loop runs in the pipeline "
            "pair; the real WRITER, DatasetProcessor.resolve_multimappers, is called directly with an identity resolver and "
            "its files are compared byte for byte with the model)",
+           "props/C15reuse.py: the stub of collect_reads_in_parallel (generated objects -> real printer -> processed_reads as "
+           "the real function returns them) and of pysam.AlignmentFile(...).unmapped; the interning table sent to the driver",
            "Lean `String.fromUTF8?` accepts exactly the byte strings CPython's strict utf-8 decoder accepts "
            "(cross-checked on corrupted streams each run)"]
 ASSUMPTIONS = ["CPython int = Lean Int; Python str without lone surrogates = Lean String (list of Unicode scalar values)",
@@ -658,6 +667,8 @@ def correspondence(ctx):
     run_cases(ctx, cases)
     stream_correspondence(ctx, E)
     pipeline_files_correspondence(ctx)
+    from props import C15reuse
+    C15reuse.correspondence(ctx)
 
 
 def run_cases(ctx, cases):
@@ -1222,6 +1233,12 @@ def oracle(ctx, disagreements, broken):
                 ctx.fail("reuse", {"kind": "reuse", "dataset": run["tag"], "seed": ctx.seed, "tier": ctx.tier}, r)
     finally:
         pipeline_cleanup()
+    # reuse on generated saved files, real command line in-process (saving run in both memory modes, two restarts)
+    from props import C15reuse
+    try:
+        C15reuse.oracle(ctx, disagreements, broken)
+    finally:
+        C15reuse.cleanup()
     ctx.extra["oracle_cases"] = n_cases
 
 
@@ -1263,7 +1280,17 @@ def _dom_ok(kind, x):
     return False
 
 
+def matches_finding(failure, entry):
+    return failure["kind"] == entry.get("kind")
+
+
 def replay(ctx, failure):
+    if str(failure.get("kind", "")).startswith("reuse:"):
+        from props import C15reuse
+        try:
+            return C15reuse.replay(ctx, failure)["reproduced"]
+        finally:
+            C15reuse.cleanup()
     inp = failure["input"]
     kind = inp.get("kind")
     if kind == "penalty":
